@@ -627,8 +627,8 @@ Strengthening (2026-10-04, evening): two input classes added, both judged by the
                               CAUGHT: 163 x "no-diagnostic on call input ...: exit 0, 0 error line(s) -- TLC: invariant
                               InvalidDiagnosed" (defects kw-unknown, kw-twice, extra-pos, kw-dup-pos)
  New findings on the unchanged tree: the macro-function stack overflow (`macro f(x) == x(x); f(f)`; candidate patch
- hooks/candidate-C07-macro-function-depth.diff) and the segmentation violation in terror.c:terrorAssignOrSetBang for
- `(p: SingleInteger, q: String) := f()` with a two-valued f (hooks/candidate-C07-multi-assign-rhs-parts.diff); with both
+ hooks/fix-C07-macro-function-depth.diff) and the segmentation violation in terror.c:terrorAssignOrSetBang for
+ `(p: SingleInteger, q: String) := f()` with a two-valued f (hooks/fix-C07-multi-assign-rhs-parts.diff); with both
  patches applied (worktree) the two texts give ordinary errors.
  Model corrections of this round (not findings): `f ==> macro (x) +-> b` needs parentheses in the grammar; a name defined
  twice gets no certificate (the compiler expands the second body while the first definition is in force -- a third reading
